@@ -154,6 +154,12 @@ def judge(case):
             if reparsed.ok and lib.same(reparsed.value, obj) is None and _texts(serialise(reparsed.value)) != texts:
                 findings.append(Finding('nondeterministic:roundtrip/%s' % name, {
                     'a': texts[0][:160], 'b': _texts(serialise(reparsed.value))[0][:160]}))
+            # the same object after it has been composed (an earlier operation of the same process) still renders
+            # the same documents
+            again = _texts(serialise(obj))
+            if again != texts:
+                findings.append(Finding('nondeterministic:after-compose/%s' % name, {
+                    'a': str(texts[0])[:200], 'b': str(again[0])[:200]}))
     return obj, findings, texts
 
 
